@@ -141,7 +141,7 @@ def plane(tier: str, rng: random.Random) -> List[Tuple[str, Any, Any]]:
     for s in ["ß", "éA", "ǅ", "İ", "ﬁ", "σς", " é "]:
         for pr in (("Strip",), ("Upper",), ("Lower",)):
             out.append(("proc", pr, G.S(s)))
-    for e in ["a@b.co", "a@b", "x.y+z@d-e.f.g", " a@b.co", "a@b.co\n", "@b.co"]:
+    for e in ["a@b.co", "a@b", "x.y+z@d-e.f.g", " a@b.co", "a@b.co\n", "@b.co", "!! a@b.co", "\nbob@example.com", "<x> bob@example.com", "a@b.co trailing"]:
         out.append(("pred", ("PEmail",), G.S(e)))
     # containers: item counts, uniqueness, key counts
     cl = 3 if tier == "quick" else 4
@@ -259,6 +259,11 @@ def reference(kind: str, t, x: Any) -> Any:
         return True
     if c == "PChoices":
         return any(x == ch for ch in (to_py(z, None) for z in t[1]))
+    if c == "PEmail" and isinstance(x, str):
+        # whatever the pattern is, it is matched at the start of the string (re.match): the anchoring is the relation
+        import re as _re
+        from koda_validate.string import EmailPredicate
+        return _re.compile(EmailPredicate.pattern.pattern).match(x) is not None
     return None
 
 
